@@ -51,6 +51,9 @@ type ClaimSpec struct {
 	Vanish         bool   `json:"vanish,omitempty"`         // the instance disappears from the provider (no longer listed)
 	Node           string `json:"node,omitempty"`           // "" as driven | ready | notready | unknown | absent
 	Deleting       bool   `json:"deleting,omitempty"`       // NodeClaim already carries a deletionTimestamp
+	// DupNode: a second Node object with the claim's providerID exists before registration (Registered goes False with
+	// MultipleNodesFound instead of True): "" | "fresh" (first seen by the reconcile under test) | "seen" (already reconciled once)
+	DupNode        string `json:"dupNode,omitempty"`
 	Unhealthy      []int  `json:"unhealthy,omitempty"`      // indexes of repair policies whose condition the Node shows
 	UnhealthyStepS int    `json:"unhealthyStepS,omitempty"` // clock step before the unhealthy condition is set
 	UnhealthyGapS  int    `json:"unhealthyGapS,omitempty"`  // clock step between two unhealthy conditions of the same node
@@ -272,6 +275,25 @@ func build(S Spec, seed int64) (*W, error) {
 			w.PIDs[i] = inst.ProviderID
 		}
 		w.Nodes[i] = node
+		if c.DupNode != "" && node != "" {
+			n := &corev1.Node{}
+			if e.API.Raw.Get(ctx, types.NamespacedName{Name: node}, n) == nil {
+				d := n.DeepCopy()
+				d.ObjectMeta = metav1.ObjectMeta{Name: node + "-dup", Labels: n.Labels, UID: types.UID("node-" + node + "-dup")}
+				if d.Labels != nil {
+					d.Labels = map[string]string{}
+					for k, v := range n.Labels {
+						d.Labels[k] = v
+					}
+					d.Labels[corev1.LabelHostname] = d.Name
+				}
+				e.Apply(d)
+				if c.DupNode == "seen" {
+					e.Clock.Step(20 * time.Second)
+					_, _ = e.ReconcileClaim(name) // Registered=False (MultipleNodesFound) is stored
+				}
+			}
+		}
 		if node != "" && c.Stage >= int(world.StageRegistered) && pods[i] != nil {
 			e.Bind(pods[i], node)
 		}
